@@ -125,14 +125,31 @@ def _summarise_one(arg):
     fs, d = arg
     if d is None:
         return None
-    sp = os.path.join(d, "c17summary.v2.json")
+    sp = os.path.join(d, "c17summary.v3.json")
     if os.path.exists(sp):
         with open(sp) as fh:
             return json.load(fh)
     with open(os.path.join(d, "string_calculator.facts.json")) as fh:
         doc = json.load(fh)
     order, derived, manual = category_order(Facts(doc))
-    sm = {"exports": doc["exports"], "modules": module_hashes(doc), "category": [order, derived, manual]}
+    casts = []
+    enums = {a["path"]: [v["name"] for v in a["variants"]] for a in doc["adts"] if a["kind"] == "Enum"}
+    for fj in doc["fns"]:
+        th = fj.get("thir")
+        if not th:
+            continue
+
+        def w(e, fj=fj):
+            if isinstance(e, dict):
+                if e.get("k") == "cast" and e.get("from") in enums:
+                    casts.append([fj["path"], e["from"], e.get("ty"), e["sp"][0]])
+                for v in e.values():
+                    w(v)
+            elif isinstance(e, list):
+                for v in e:
+                    w(v)
+        w(th)
+    sm = {"exports": doc["exports"], "modules": module_hashes(doc), "category": [order, derived, manual], "enum_casts": casts, "enums": enums}
     with open(sp + ".tmp%d" % os.getpid(), "w") as fh:
         json.dump(sm, fh)
     os.replace(sp + ".tmp%d" % os.getpid(), sp)
@@ -201,6 +218,23 @@ def main(tier):
                "utils::OperatorCategory, features %s" % name, "%s vs %s" % (order, restricted), distinct="category-order")
         need = {"BitwiseOr", "BitwiseAnd", "Shift"}
         run.ob((need <= set(order or [])) == ("eval_i64" in fs), "category-gate|%s" % name, "C17 the i64-only categories exist exactly when eval_i64 is selected", "utils::OperatorCategory", str(order), distinct="category-gate")
+    # numeric value of an enum whose variant list depends on the feature set
+    variant_sets = {}
+    for fs, doc, err in res:
+        if doc is None:
+            continue
+        for path, names in doc.get("enums", {}).items():
+            variant_sets.setdefault(path, set()).add(tuple(names))
+    cfg_enums = {p_ for p_, vs in variant_sets.items() if len(vs) > 1}
+    run.ob(any(p_.endswith("OperatorCategory") for p_ in cfg_enums), "cfg-enums", "C17 the enums whose variants depend on the feature set are known", "adts", str(sorted(cfg_enums)), sample={"cfg_dependent_enums": sorted(cfg_enums)})
+    seen_c = set()
+    for fs, doc, err in res:
+        if doc is None:
+            continue
+        for fnp, frm, to, line in doc.get("enum_casts", []):
+            if frm in cfg_enums and (fnp, frm) not in seen_c:
+                seen_c.add((fnp, frm))
+                run.ob(False, "enum-discriminant|%s" % fnp.replace("::<'a>", ""), "C17 no code depends on the numeric discriminant of an enum whose variants are feature-gated (it shifts with the feature set)", "%s line %s" % (fnp, line), "`%s as %s`" % (frm, to))
     # empty subset: builds and exports nothing
     try:
         d0, info = extract.extract(features=[])
